@@ -2,7 +2,7 @@
    ONLY property statements, each closed by `exact <lemma>`, with Print Assumptions and a
    non-vacuity example.  Spec: Isa.v.  Model of the C++: SimModel.v (tied by tools/c02.py). *)
 From Coq Require Import ZArith List Lia.
-From HexVerif Require Import WMap Isa IsaProps SimModel SimProofs.
+From HexVerif Require Import WMap Isa IsaProps SimModel SimProofs SimIO SimIOProofs.
 Import ListNotations.
 Local Open Scope Z_scope.
 
@@ -49,3 +49,35 @@ Proof.
     + rewrite rd_wr_other by lia. rewrite rd_empty. cbv beta. unfold W. lia.
   - eexists. vm_compute. reflexivity.
 Qed.
+
+(* ---- stream-to-file routing and the simulator's I/O device.  hexsimio.hpp keeps ONE stream per file index, opened at
+   first use in the direction of that use (SimIO.v, tied to the real hexsim by tools/c02.py on programs that mix
+   directions); Isa.v gives every index independent input and output files.  On every run that uses each index in one
+   direction the two agree: same events, same final state, the same bytes on the console and in each simout<k>.
+   Without the hypothesis the statement is false of the simulator (C02_io_mixed_refuted): the last sentence of the
+   property ("a whole run is the ISA-defined trace") is proved for the device only under single_direction. *)
+Theorem C02_io_single_direction_partial : forall n mc s inp tr inp' s' en,
+  SimModel.run n mc s inp [] = (tr, inp', s', en) -> single_direction tr ->
+  exists d', run_dev n mc s (dev0 inp) [] = (tr, d', s', en) /\
+             d_console d' = console inp' /\
+             rev (d_cout d') = isa_cout tr /\ (forall k, rev (d_fout d' k) = isa_fout k tr).
+Proof. exact io_agree. Qed.
+Print Assumptions C02_io_single_direction_partial.
+
+(* write 65 to stream 256, read stream 512 (resp. 256), exit with the byte read; simin1 = [7], simin2 = [9] *)
+Definition io_img (rd_stream_word : Z) : list Z :=
+  [151; 150000; 2182164964; 2201018593; rd_stream_word; 847384880; 3924091603; 2182152687; 54064].
+Definition io_inp : inputs := {| console := []; files := fun k => if k =? 1 then [7] else if k =? 2 then [9] else [] |}.
+Definition end_of {A B C} (r : A * B * C * run_end) : run_end := snd r.
+Example C02_io_single_nonvacuous :
+  let r := SimModel.run 40 0 (cpp_init (io_img 3772961585)) io_inp [] in
+  end_of r = Returned 9 /\ fst (fst (fst r)) = [Write 65 256; Read 512 9; Exit 9] /\
+  end_of (run_dev 40 0 (cpp_init (io_img 3772961585)) (dev0 io_inp) []) = Returned 9.
+Proof. vm_compute. repeat split; reflexivity. Qed.
+(* the same program reading back the index it has written: the architecture's independent files give 7, the device
+   (and the real hexsim) gives end-of-file *)
+Theorem C02_io_mixed_refuted :
+  end_of (SimModel.run 40 0 (cpp_init (io_img 3772896049)) io_inp []) = Returned 7 /\
+  end_of (run_dev 40 0 (cpp_init (io_img 3772896049)) (dev0 io_inp) []) = Returned 255.
+Proof. vm_compute. split; reflexivity. Qed.
+Print Assumptions C02_io_mixed_refuted.
